@@ -672,21 +672,27 @@ class Real(PackedOps, RandOps):
         leaves the normal range of the working precision (an overflow to inf followed by a factor 0 gives
         NaN, i.e. an invalid pixel; an underflow loses the value).  Sufficient for safety: within every
         group of children the sum of |log2 |v|| over the non-zero values stays below the exponent range."""
-        if red != 'prod' or m.is_rec_array or m.is_wide_mask_map or m.dtype.kind == 'b':
+        if red != 'prod' or m.is_wide_mask_map or (not m.is_rec_array and m.dtype.kind == 'b'):
             return False
-        lim = 120.0 if (m.dtype.kind == 'f' and m.dtype.itemsize == 4) else 1000.0
         vp = m.valid_pixels
         if vp.size == 0:
             return False
-        vals = np.abs(m.get_values_pix(vp).astype(np.float64))
         shift = 2 * (int(np.log2(m.nside_sparse)) - ordout)
-        grp = vp >> max(shift, 0)
-        with np.errstate(divide='ignore'):
-            lg = np.where(vals > 0, np.abs(np.log2(np.where(vals > 0, vals, 1.0))), 0.0)
-        tot = {}
-        for g, x in zip(grp.tolist(), lg.tolist()):
-            tot[g] = tot.get(g, 0.0) + x
-        return max(tot.values()) >= lim
+        grp = (vp >> max(shift, 0)).tolist()
+        allv = m.get_values_pix(vp)
+        # (record arrays: every field is reduced, a float32 field is stored back in float32)
+        cols = [(allv[n], m.dtype[n]) for n in m.dtype.names] if m.is_rec_array else [(allv, m.dtype)]
+        for col, dt in cols:
+            lim = 120.0 if (dt.kind == 'f' and dt.itemsize == 4) else 1000.0
+            vals = np.abs(np.asarray(col).astype(np.float64))
+            with np.errstate(divide='ignore'):
+                lg = np.where(vals > 0, np.abs(np.log2(np.where(vals > 0, vals, 1.0))), 0.0)
+            tot = {}
+            for g, x in zip(grp, lg.tolist()):
+                tot[g] = tot.get(g, 0.0) + x
+            if max(tot.values()) >= lim:
+                return True
+        return False
 
     def op_deg(self, pos, kv):
         m = self.m(pos[0])
